@@ -82,19 +82,23 @@ def run(db, chk) -> None:
         I = Interp(db, call_hook=hook)
         runs = I.explore(ref, lambda I: {"cls": Obj("cls", cls=(m, "CudaKernelAnalysis")), "t": Obj("t", attrs={"symbol_table": Obj("symtab")}), "ranks": [R0, R1],
                                          "include_memory_events": mem, "visualize": False})
-        runs = [r for r in runs if r.raised is None]
-        if len(runs) != 1 or not isinstance(runs[0].ret, dict):
-            chk.ob(rule, f"[memory={mem}] one path returning a dict rank -> frame", None, where, found=len(runs))
+        runs = [r for r in runs if r.raised is None and isinstance(r.ret, dict)]
+        if not runs or len(runs) > 8:
+            chk.ob(rule, f"[memory={mem}] analysable paths returning a dict rank -> frame", None, where, found=len(runs))
             continue
-        res = runs[0].ret
-        chk.ob(rule, f"[memory={mem}] one result per requested rank", set(res) == {R0, R1}, where, found=[T.show(k) for k in res], accepted=["$RANK0", "$RANK1"])
-        for rk in (R0, R1):
+        for run_, rk in [(r_, k_) for r_ in runs for k_ in (R0, R1)]:
+            res = run_.ret
+            ptag = (" when " + T.show(run_.cond())[:50]) if run_.path else ""
+            if rk == R0:
+                chk.ob(rule, f"[memory={mem}{ptag}] one result per requested rank", set(res) == {R0, R1}, where, found=[T.show(k) for k in res], accepted=["$RANK0", "$RANK1"])
             E = res.get(rk)
-            tag = f"[memory={mem}, {T.show(rk)}]"
+            tag = f"[memory={mem}, {T.show(rk)}{ptag}]"
             TRr = ("param", "TR", rk)
             if not isinstance(E, Frame) or E.base[0] != "join":
                 chk.ob(rule, f"{tag} result is a join of host and device rows", None if not isinstance(E, Frame) else False, where, found=repr(E)[:120], accepted="inner merge on correlation")
                 continue
+            chk.ob(rule, f"{tag} every linked pair is reported: no row of the joined table is filtered out afterwards", E.rows == T.TRUE, where, found=T.show(E.rows)[:160], accepted="no filter after the join",
+                   why="e.g. a 'sanity' filter ts_device >= ts_host drops pairs whose activity starts before the launch call began (clock skew)")
             _, how, Lc, Rc, lk, rk_, sfx = E.base
             CORR = T.col(TRr, "correlation")
             chk.ob(rule, f"{tag} inner join on the correlation id", how == "inner" and lk == (CORR,) and rk_ == (CORR,), where, found=[how] + [T.show(x) for x in lk + rk_],
@@ -163,6 +167,10 @@ def run(db, chk) -> None:
     if len(cs) != 1:
         raise AnalysisError("facade delegation not found")
     bnd = H.bind_call(fn, cs[0])
+
+    for _p, _src, _v in H.rebinds_of_params(fac, ["ranks", "runtime_cutoff", "launch_delay_cutoff", "include_memory_events", "visualize"]):
+        chk.ob("C15.R-facade-integrity", f"facade forwards parameter {_p} unmodified", _v == "default-if-none", ta.loc(fac), found=_src, accepted="no re-binding, or `if p is None: p = <default>`",
+               why="`p = p or default` replaces legitimate falsy values (a threshold of 0, an empty selection) by the default")
     for pn in ("ranks", "runtime_cutoff", "launch_delay_cutoff", "include_memory_events", "visualize"):
         chk.ob("C15.R2-facade", f"facade argument -> parameter {pn}", H.name_id(bnd.get(pn)) == pn, ta.loc(cs[0]), found=ast.unparse(bnd[pn]) if pn in bnd else None, accepted=pn)
     chk.ob("C15.R2-facade", "facade passes its trace", H.is_self_attr(bnd.get("t"), "t"), ta.loc(cs[0]), found=ast.unparse(bnd["t"]) if "t" in bnd else None, accepted="self.t")
